@@ -6,8 +6,12 @@ CHECKS = ["bounds-check", "pointer-check", "signed-overflow-check", "div-by-zero
           "pointer-primitive-check", "undefined-shift-check", "float-overflow-check"]
 units = []
 
+TEST_DISABLED = bool(os.environ.get("GEN_ENABLE_DISABLED"))   # testing aid: emit the disabled units as runnable
+
 def unit(id, clause, entry, enforce=None, cls="proved", tier="quick", **kw):
     u = {"id": id, "tier": tier, "class": cls, "clause": clause, "entry": entry}
+    if TEST_DISABLED:
+        kw.pop("disabled_reason", None)
     if enforce:
         u["enforce"] = [enforce]
     u.update(kw)
@@ -73,6 +77,106 @@ unit("str.cfun.buffer.blit",
               mut("same-buf-memcpy", "buffer.c", "memmove(dest->data + offset_dest, src.bytes + offset_src, length_src);", "memcpy(dest->data + offset_dest, src.bytes + offset_src, length_src);", "memcpy model"),
               mut("stale-src-after-realloc", "buffer.c", "            src.bytes = dest->data;\n", "", "memmove model|pointer|postcondition"),
               mut("no-range-check", "buffer.c", "    if (last > INT32_MAX)\n        janet_panic(\"buffer blit out of range\");\n", "", "conversion|overflow|postcondition")])
+
+unit("str.cfun.buffer.popn",
+     "buffer/popn: arity 2; raises for negative n; removes min(n, length) bytes from the end, remaining bytes and capacity unchanged, no reallocation; returns buffer",
+     "h_cfun_buffer_popn", "cfun_buffer_popn/cfun_buffer_popn_c", assumes=BCA, **BC,
+     mutants=[mut("no-underflow-clamp", "buffer.c", "    if (buffer->count < n) {\n        buffer->count = 0;\n    } else {\n        buffer->count -= n;\n    }", "    buffer->count -= n;", "postcondition|overflow"),
+              mut("negative-n-accepted", "buffer.c", "    if (n < 0) janet_panic(\"n must be non-negative\");\n", "", "postcondition|overflow")])
+unit("str.cfun.buffer.fill",
+     "buffer/fill: arity 1..2; every byte of the buffer becomes byte & 0xFF (default 0), length and capacity unchanged, memset inside the block; returns buffer",
+     "h_cfun_buffer_fill", "cfun_buffer_fill/cfun_buffer_fill_c", assumes=BCA, **BC,
+     mutants=[mut("fill-capacity", "buffer.c", "memset(buffer->data, byte, buffer->count);", "memset(buffer->data, byte, buffer->capacity + 1);", "memset model|assigns"),
+              mut("fill-ignores-byte", "buffer.c", "memset(buffer->data, byte, buffer->count);", "memset(buffer->data, 0, buffer->count);", "postcondition")])
+unit("str.cfun.buffer.new_filled",
+     "buffer/new-filled: arity 1..2; returns a NEW well-formed buffer of length max(count, 0) with every byte == byte & 0xFF (default 0); memset inside the new block",
+     "h_cfun_buffer_new_filled", "cfun_buffer_new_filled/cfun_buffer_new_filled_c", assumes=BCA + ["malloc does not fail (CBMC default)"], **BC,
+     mutants=[mut("negative-count-kept", "buffer.c", "    if (count < 0) count = 0;\n    int32_t byte = 0;", "    int32_t byte = 0;", "postcondition|memset model"),
+              mut("count-not-set", "buffer.c", "        memset(buffer->data, byte, count);\n    buffer->count = count;", "        memset(buffer->data, byte, count);", "postcondition")])
+unit("str.cfun.buffer.slice",
+     "buffer/slice: arity 1..3; returns a NEW well-formed buffer holding exactly bytes[start, end) of the source (a string or a buffer, possibly the same one), memcpy inside both blocks; the source is not modified",
+     "h_cfun_buffer_slice", "cfun_buffer_slice/cfun_buffer_slice_c", assumes=BCA + ["janet_getslice replaced by its contract (proved in seq.capi.getslice): 0 <= start <= end <= length of slot 0", "malloc does not fail (CBMC default)",
+                                                                                      "domain restriction argc >= 1: with no argument argv[0] is read before the arity check (unit str.cfun.buffer.slice.argc0 keeps that obligation; outcome is still an error)"], **BC,
+     mutants=[mut("copy-from-start", "buffer.c", "memcpy(buffer->data, view.bytes + range.start, range.end - range.start);", "memcpy(buffer->data, view.bytes, range.end - range.start);", "postcondition"),
+              mut("copy-end-bytes", "buffer.c", "memcpy(buffer->data, view.bytes + range.start, range.end - range.start);", "memcpy(buffer->data, view.bytes + range.start, range.end);", "memcpy model|assigns")])
+PI_MAP = "i,buffer_push_impl::1::1::i;argc,buffer_push_impl::argc;argc_offset,buffer_push_impl::argc_offset;buffer,buffer_push_impl::buffer"
+unit("str.cfun.buffer.push_at",
+     "buffer/push-at, every size and argument count (bytes, byte sequences, the buffer itself): index in [0, length] else raises; data written from index on, bytes before index unchanged, the buffer never gets shorter, raises instead of exceeding INT32_MAX, every write inside the (regrown) block, foreign memory never reallocated; returns buffer",
+     "h_cfun_buffer_push_at", "cfun_buffer_push_at/cfun_buffer_push_at_c", timeout=600, tier="thorough",
+     assumes=BCA + ["domain restriction: the buffer is pushed onto itself only while shorter than 1 GiB (count + count overflows int32 otherwise, unit str.cfun.buffer.push_at.selfhuge)"], **dict(BC, defines=BC["defines"] + ["-DSTR_PUSH_MAXARGC=4"]),
+     functions=["cfun_buffer_push_at", "buffer_push_impl"],
+     cls="bounded", bound="at most 2 pushed arguments (argc <= 4; the loop contract variant ran out of memory: havoc of the symbolic-size block inside the loop); buffer sizes, index and byte-sequence lengths unbounded",
+     unwindset={"buffer_push_impl.0": 3}, cbmc=["--sat-solver", "cadical"],
+     mutants=[mut("index-upper-check-dropped", "buffer.c", "if (index < 0 || index > old_count) {", "if (index < 0) {", "postcondition|pointer|assigns|memcpy model"),
+              mut("count-not-restored", "buffer.c", "    if (buffer->count < old_count) {\n        buffer->count = old_count;\n    }\n    return argv[0];\n}\n\nJANET_CORE_FN(cfun_buffer_push,", "    return argv[0];\n}\n\nJANET_CORE_FN(cfun_buffer_push,", "postcondition")])
+unit("str.cfun.buffer.push_at.selfhuge",
+     "buffer/push-at (and buffer/push, buffer/push-string, same helper), ALL sizes: no signed overflow when a buffer is pushed onto itself",
+     "h_cfun_buffer_push_at", "cfun_buffer_push_at/cfun_buffer_push_at_c", tier="thorough", timeout=300,
+     disabled_reason="fails on the pinned tree (buffer_push_impl.overflow: `buffer->count + view.len` for a buffer of >= 1 GiB pushed onto itself overflows int32 before janet_buffer_extra's 64-bit check); benign with wrap-around arithmetic (janet_buffer_ensure gets a negative capacity and returns, janet_buffer_extra then raises 'buffer overflow')",
+     cls="bounded", bound="at most 2 pushed arguments", unwindset={"buffer_push_impl.0": 3}, cbmc=["--sat-solver", "cadical"],
+     assumes=BCA, **dict(BC, defines=BC["defines"] + ["-DSTR_PUSH_MAXARGC=4", "-DSTR_PUSH_SELF_ANY"]), functions=["cfun_buffer_push_at", "buffer_push_impl"],
+     mutants=[mut("index-upper-check-dropped", "buffer.c", "if (index < 0 || index > old_count) {", "if (index < 0) {", "postcondition|pointer|assigns|memcpy model")])
+SLICE_MUT = [mut("copy-from-start", "buffer.c", "memcpy(buffer->data, view.bytes + range.start, range.end - range.start);", "memcpy(buffer->data, view.bytes, range.end - range.start);", "postcondition")]
+unit("str.cfun.buffer.slice.argc0",
+     "buffer/slice, ALL argument counts: no argument slot is read at an index >= argc",
+     "h_cfun_buffer_slice", "cfun_buffer_slice/cfun_buffer_slice_c", tier="thorough",
+     disabled_reason="fails on the pinned tree (janet_getbytes.assertion.1 'argument slot index below argc'): (buffer/slice) reads argv[0] before the arity check of janet_getslice; minor - the stale slot lies inside the fiber stack and the call still raises (type or arity error); same pattern in string/slice, symbol/slice, keyword/slice",
+     assumes=BCA, **dict(BC, defines=BC["defines"] + ["-DSTR_SLICE_ANY_ARGC"]), mutants=SLICE_MUT)
+BITA = ["domain restriction -9.2e18 < index < 9.2e18 (finite): outside it the conversion (int64_t) x in bitloc is undefined behaviour in C (unit str.cfun.buffer.bit.anydouble keeps that obligation)"]
+for nm, lisp, what, m in [
+    ("bitset", "bit-set", "set", mut("no-upper-check", "buffer.c", "if (bitindex != x || bitindex < 0 || byteindex >= buffer->count)", "if (bitindex != x || bitindex < 0)", "postcondition|pointer_dereference|assigns|conversion|overflow")),
+    ("bitclear", "bit-clear", "cleared", mut("bound-off-by-one", "buffer.c", "if (bitindex != x || bitindex < 0 || byteindex >= buffer->count)", "if (bitindex != x || bitindex < 0 || byteindex > buffer->count)", "postcondition|pointer_dereference|assigns")),
+    ("bittoggle", "bit-toggle", "toggled", mut("negative-index-accepted", "buffer.c", "if (bitindex != x || bitindex < 0 || byteindex >= buffer->count)", "if (bitindex != x || byteindex >= buffer->count)", "postcondition|pointer_dereference|assigns|conversion|overflow")),
+    ("bitget", "bit", "read", mut("fraction-accepted", "buffer.c", "if (bitindex != x || bitindex < 0 || byteindex >= buffer->count)", "if (bitindex < 0 || byteindex >= buffer->count)", "postcondition"))]:
+    unit("str.cfun.buffer." + nm,
+         "buffer/%s: arity 2; returns only for an integral bit index with 0 <= index < 8 * length (else raises, nothing outside the buffer touched); bit index&7 of byte index>>3 is %s, every other byte and bit unchanged, length unchanged%s" % (lisp, what, "; returns buffer" if nm != "bitget" else "; returns the bit as a boolean"),
+         "h_cfun_buffer_" + nm, "cfun_buffer_%s/cfun_buffer_%s_c" % (nm, nm), assumes=BCA + BITA, cbmc=["--sat-solver", "cadical"], mutants=[m], **BC)
+
+unit("str.cfun.buffer.bit.anydouble",
+     "buffer/bit-set, ALL numbers as index incl. NaN, infinities and |x| >= 2^63: the double -> int64 conversion in bitloc is defined",
+     "h_cfun_buffer_bitset", "cfun_buffer_bitset/cfun_buffer_bitset_c", tier="thorough",
+     disabled_reason="fails on the pinned tree (bitloc overflow obligation: (int64_t) x for NaN / infinite / |x| >= 2^63 is undefined behaviour); benign on x86-64 and AArch64 (the converted value then fails `bitindex != x` or the range test and the call raises), so no observable misbehaviour",
+     assumes=BCA, cbmc=["--sat-solver", "cadical"], **dict(BC, defines=BC["defines"] + ["-DSTR_BIT_ANY_DOUBLE"]),
+     mutants=[mut("no-upper-check", "buffer.c", "if (bitindex != x || bitindex < 0 || byteindex >= buffer->count)", "if (bitindex != x || bitindex < 0)", "postcondition|pointer_dereference|assigns|conversion|overflow")])
+
+# ------------------------------------------------------------------ string.c: search-based C functions, KMP engine under contract
+SF = dict(mode="plain", src=["string.c"], link=["wrap.c", "util.c"], link_keep={"util.c": ["safe_memcpy"]}, harness=["str_find_cfun.c"],
+          defines=["-DSEQ_ELEM_BYTES"], replace_calls=["kmp_init:kmp_init_stub", "kmp_next:kmp_next_stub"], unwind=4)
+SFA = ["kmp_init / kmp_next replaced by their contracts (asserting stubs; proved in str.kmp.init.table, str.kmp.next.safe for patterns up to 8 bytes, assumed beyond): a hit is ANY index r >= resume point with r + patlen <= textlen",
+       "capi.c getters are stubs: pattern and text are separate readable blocks of any length, integer slots return the slot's low 32 bits, each asserts slot index < argc; janet_arity returns only for an accepted argc",
+       "janet_gcalloc returns a fresh block (asserts a size <= header + INT32_MAX + 1); janet_string_calchash arbitrary",
+       "memcpy model (seq_common.h): ranges must be valid and disjoint - counted obligations; pointwise effect on the ghost byte"]
+SUBST = "janet_text_substitution stub: asserts the occurrence is readable, returns a byte view of any length >= 0; does NOT modify the text (see unit str.cfun.string.replace.mutable-text for a callback that does)"
+RES = "janet_array / janet_array_push / janet_buffer_init / janet_buffer_push_bytes / janet_buffer_deinit replaced by asserting models of their contracts (units seq.array.*, seq.buffer.*)"
+unit("str.cfun.string.find",
+     "string/find, every text/pattern length and start: arity 2..3, raises for an empty pattern or a negative start; searches from start; returns nil when the search reports nothing, else the reported index as an integer; table released once, never used afterwards",
+     "h_cfun_string_find", cls="full-domain", functions=["cfun_string_find", "findsetup", "kmp_deinit"], assumes=SFA, **SF,
+     mutants=[mut("negative-start-accepted", "string.c", "        start = janet_getinteger(argv, 2);\n        if (start < 0) janet_panic(\"expected non-negative start index\");\n    }\n    kmp_init(s, text.bytes, text.len, pat.bytes, pat.len);\n    s->i = start;", "        start = janet_getinteger(argv, 2);\n    }\n    kmp_init(s, text.bytes, text.len, pat.bytes, pat.len);\n    s->i = start;", "C17|kmp_next precondition"),
+              mut("start-ignored", "string.c", "    kmp_init(s, text.bytes, text.len, pat.bytes, pat.len);\n    s->i = start;\n}", "    kmp_init(s, text.bytes, text.len, pat.bytes, pat.len);\n}", "C17"),
+              mut("use-after-deinit", "string.c", "    result = kmp_next(&state);\n    kmp_deinit(&state);\n    return result < 0", "    kmp_deinit(&state);\n    result = kmp_next(&state);\n    kmp_deinit(&state);\n    return result < 0", "free|deallocated|double")])
+unit("str.cfun.string.findall",
+     "string/find-all: arity 2..3, raises for an empty pattern or a negative start; returns a new array holding every reported index in increasing order, one element per occurrence",
+     "h_cfun_string_findall", cls="bounded", bound="at most 2 occurrences reported (result loop unwound); lengths unbounded", functions=["cfun_string_findall", "findsetup"], assumes=SFA + [RES], **SF,
+     mutants=[mut("push-start-instead", "string.c", "janet_array_push(array, janet_wrap_integer(result));", "janet_array_push(array, janet_wrap_integer(state.i));", "C17")])
+unit("str.cfun.string.replace",
+     "string/replace, every text/pattern/substitution length whose result fits int32: arity 3..4; without occurrence a copy of str (subst not evaluated); else a new string of length len str - len patt + len subst = str[0,r) ++ subst ++ str[r + len patt, end), NUL terminated; the three memcpy inside text, subst and the new block",
+     "h_cfun_string_replace", cls="full-domain", functions=["cfun_string_replace", "replacesetup"],
+     assumes=SFA + [SUBST, "domain restriction len str - len patt + len subst <= INT32_MAX; the unrestricted unit str.cfun.string.replace.overflow fails (genuine defect)"], **SF,
+     mutants=[mut("tail-from-hit", "string.c", "                s.kmp.text + result + s.kmp.patlen,\n                s.kmp.textlen - result - s.kmp.patlen);", "                s.kmp.text + result,\n                s.kmp.textlen - result - s.kmp.patlen);", "C17"),
+              mut("tail-too-long", "string.c", "                s.kmp.textlen - result - s.kmp.patlen);", "                s.kmp.textlen - result);", "memcpy model|C17")])
+
+REPL_MUT = [mut("tail-too-long", "string.c", "                s.kmp.textlen - result - s.kmp.patlen);", "                s.kmp.textlen - result);", "memcpy model|C17")]
+unit("str.cfun.string.replace.overflow",
+     "string/replace, ALL lengths: the result length len str - len patt + len subst is computed without int32 overflow (raises instead), the new block is large enough for every memcpy",
+     "h_cfun_string_replace", cls="full-domain", tier="thorough", functions=["cfun_string_replace"],
+     disabled_reason="fails on the pinned tree (cfun_string_replace.overflow.3 signed overflow in `s.kmp.textlen - s.kmp.patlen + subst.len`, then janet_gcalloc size / head->length / memcpy destination out of bounds): GENUINE DEFECT, heap overflow -> SIGSEGV: (def big (string/repeat \"a\" 2147483647)) (string/replace \"aaaaaaaa\" big big)",
+     assumes=SFA + [SUBST], **dict(SF, defines=SF["defines"] + ["-DSTR_REPLACE_ANY_LENGTH"]), mutants=REPL_MUT)
+unit("str.cfun.string.replace.mutable-text",
+     "string/replace with a function as subst and a BUFFER as str: the text is still valid after the callback ran (every later read of the text is inside a live block)",
+     "h_cfun_string_replace", cls="full-domain", tier="thorough", functions=["cfun_string_replace"],
+     disabled_reason="fails on the pinned tree (memcpy model: source range readable / pointer deallocated after janet_text_substitution): GENUINE DEFECT, use after free -> SIGSEGV when the callback grows the buffer that is being searched; same in string/replace-all: (def b (buffer/new-filled 2000000 97)) (put b 10 88) (put b 1999990 88) (string/replace-all \"X\" (fn [m] (buffer/push b (string/repeat \"z\" 50000000)) (buffer/trim b) \"y\") b)",
+     assumes=SFA + ["janet_text_substitution stub: when subst is a function and the text is a buffer, the callback may reallocate (free) the text block"],
+     **dict(SF, defines=SF["defines"] + ["-DSTR_SUBST_MAY_RESIZE"]), mutants=REPL_MUT)
 
 json.dump({"defaults": {"props": ["C17"], "mode": "dfcc", "timeout": 120, "object_bits": 8, "checks": CHECKS}, "units": units},
           open(os.path.join(V, "units", "C17_str.json"), "w"), indent=1)
